@@ -18,7 +18,8 @@ RULE = ("case = (scenario, schedule): scenario from the families sequential / fa
         "1..8 concurrent executions started by raw start event, REST StartExecution, REST StartSyncExecution (EXPRESS) or as a synchronous child; schedule = "
         "canonical, seeded random (timer-vs-delivery weights varied), or exhaustive DFS for small fan-outs. non-trivial = the run had >=2 executions or a fan-out "
         "and >=2 distinct schedules of its scenario were seen; distinct by hash of (scenario, action sequence)")
-ASSUMPTIONS = ["families with Catch/Retry on a failing fan-out or several concurrent failures belong to C06 (as the property's quantifier says)",
+ASSUMPTIONS = ["families with Catch/Retry on a failing fan-out or several concurrent failures belong to C06 (as the property's quantifier says); a sample of them is run here "
+               "under this property's rules, with C06's trace predicates deciding what belongs to the listed sibling finding",
                "execution names are unique per world; simulated broker/clock fidelity (DESIGN.md section 3)"]
 FLOORS = {"evaluations": 400, "schedules": 300, "nontrivial": 150, "obs:notifications": 1500, "obs:record_snapshots": 3000, "executions_terminated": 600,
           "terminated_SUCCEEDED": 200, "terminated_FAILED": 100, "via:rest": 20, "via:sync": 10, "via:child": 10, "dfs_runs": 50}
@@ -125,6 +126,71 @@ def run(ctx):
         asl = F.chain([("Fan", st), ("After", F.P())])
         scn = {"machines": {"m": {"asl": asl}}, "funcs": dict(F.FUNCS), "starts": [{"machine": "m", "name": "e0", "input": {"items": F.items(n, depth=0)}}]}
         _sched.run_dfs(ctx, scn, dict(family="dfs-%s-%d-%s" % (kind, n, fail), kind=kind), judge, ctx.pick(120, 4000))
+    handled_and_caught_families(ctx)
+
+
+def handled_and_caught_families(ctx):
+    """(a) branches that SUCCEED after an error was caught inside them (the branch is busy in its handler while its siblings finish), with the state after the
+    join slow enough for a second completion of the join to show; (b) a sample of C06's handled-failure scenarios (the statement quantifies over all machines;
+    the exploration of that family is C06's) judged by this property's rules only, with C06's trace predicates deciding which second endings belong to the
+    listed sibling finding."""
+    from lsfverif.checks import c06
+    import random as _r
+    from lsfverif.sim.world import make_random
+    n_random = ctx.pick(3, 10)
+    i = 0
+    # (a)
+    for kind in ("Parallel", "Map"):
+        for n in (2, 3):
+            for after in ("slow3", "echo"):
+                for variant in range(ctx.pick(2, 6)):
+                    i += 1
+                    if not ctx.mine(i):
+                        continue
+                    rng = ctx.rng("caught-inside", kind, n, after, variant)
+                    names = F.Names()
+                    fast = lambda: F.chain([(names(), F.T(rng.choice(["echo", "wrap"])))])
+                    if kind == "Parallel":
+                        st = {"Type": "Parallel", "Branches": [c06.sibling_body(rng, names, "caught") if b == 0 else fast() for b in range(n)]}
+                        data = {"x": 1}
+                    else:
+                        first, handler, ok = names(), names(), names()
+                        st = {"Type": "Map", "ItemsPath": "$.items", "MaxConcurrency": rng.choice([0, 0, 1, 2]), "ItemProcessor": {"StartAt": "Pick", "States": {
+                            "Pick": {"Type": "Choice", "Choices": [{"Variable": "$.i", "NumericEquals": 0, "Next": first}], "Default": ok},
+                            first: dict(F.T("inner"), Catch=[{"ErrorEquals": ["Inner.Err"], "ResultPath": "$.caught", "Next": handler}], End=True),
+                            handler: dict(F.T("sibslow"), End=True), ok: F.T("echo", End=True)}}}
+                        data = {"items": F.items(n + 1, depth=0)}
+                    asl = F.chain([("Fan", st), ("After", F.T(after)), ("Done", F.P())])
+                    scn = {"machines": {"m": {"asl": asl}}, "funcs": dict(c06.FUNCS), "starts": [{"machine": "m", "name": "e0", "input": data}]}
+                    ctx.count("family:caught-inside-a-branch")
+                    _sched.run_schedules(ctx, scn, dict(family="caught-inside-a-branch", kind=kind), judge, n_random, ["c02ci", i], record_every=1)
+    # (b)
+    hook = lambda run: setattr(run, "watch", c06.FailureWatch(run))
+    for n in (2, 3):
+        for handlers in ("catch", "retry+catch"):
+            for sib in ("timed", "slow", "wait", "caught"):
+                for recover in ("slowtask", "pass"):
+                    i += 1
+                    if not ctx.mine(i):
+                        continue
+                    rng = ctx.rng("handled", n, handlers, sib, recover)
+                    scn, meta = c06.make(rng, "Parallel", n, {0}, handlers, sib_kind=sib, fail_delay=rng.choice([None, 1]), recover=recover)
+                    meta = dict(meta, family="handled-failure")
+                    ctx.count("family:handled-failure")
+                    for s in range(n_random + 1):
+                        r = _r.Random("c02h-%d-%d" % (i, s))
+                        pol = None if s == 0 else (lambda w, r=r: make_random(r, prompt_timer_weight=r.choice([1.0, 4.0, 0.25])))
+                        run = S.execute(scn, policy=pol, seed=ctx.seed, hooks=[hook])
+                        try:
+                            _sched.observe(ctx, run)
+                            ctx.distinct("schedules", [_sched.scn_key(scn), _sched.schedule_hash(run)])
+                            mech, handled, live = c06.mechanisms(run, meta)
+                            _sched.judge_rules(ctx, run, meta, "canonical" if s == 0 else "random%d" % s, ("N-", "R-"),
+                                               lambda run_, v: mech(v["step"], v["rule"], v.get("t")))
+                            for arn in getattr(run, "never_terminated", []) or []:
+                                ctx.violation("execution-never-terminates", S.witness_of(run, dict(arn=arn, family="handled-failure", meta=meta)), mech(None, "never"))
+                        finally:
+                            S.close(run)
 
 
 def witnesses(ctx):
